@@ -79,7 +79,7 @@ func genBlockwiseXfer(g *gen, repo string) {
 
 	// createSendingMessage
 	csm := funcDecl(f, "BlockWise", "createSendingMessage")
-	var offInit, numRecomputed, skipSent, moreInitTrue, moreFromEnd bool
+	var offInit, numRecomputed, skipSent, skipParam, moreInitTrue, moreFromEnd bool
 	ast.Inspect(csm.Body, func(n ast.Node) bool {
 		switch s := n.(type) {
 		case *ast.AssignStmt:
@@ -97,6 +97,11 @@ func genBlockwiseXfer(g *gen, repo string) {
 			}
 		case *ast.IfStmt:
 			c := c04Str(s.Cond)
+			if c == "blockType==message.Block1&&skipSent" && len(s.Body.List) == 1 {
+				if a, ok := s.Body.List[0].(*ast.AssignStmt); ok && a.Tok == token.ADD_ASSIGN && c04Str(a.Lhs[0]) == "off" && c04Str(a.Rhs[0]) == "newBufLen" {
+					skipSent, skipParam = true, true
+				}
+			}
 			if c == "blockType==message.Block1" && len(s.Body.List) == 1 {
 				if a, ok := s.Body.List[0].(*ast.AssignStmt); ok && a.Tok == token.ADD_ASSIGN && c04Str(a.Lhs[0]) == "off" && c04Str(a.Rhs[0]) == "newBufLen" {
 					skipSent = true
@@ -110,6 +115,38 @@ func genBlockwiseXfer(g *gen, repo string) {
 		}
 		return true
 	})
+	// which callers ask for the "skip what was sent" addend: without the parameter (pinned tree) both do
+	contSkips, startSkips := skipSent, skipSent
+	if skipParam {
+		arg := func(fn string) bool {
+			fd := funcDecl(f, "BlockWise", fn)
+			val, found := false, 0
+			ast.Inspect(fd.Body, func(n ast.Node) bool {
+				c, ok := n.(*ast.CallExpr)
+				if !ok || c04Str(c.Fun) != "b.createSendingMessage" {
+					return true
+				}
+				if len(c.Args) != 5 {
+					fail("%s: createSendingMessage is not called with 5 arguments", fn)
+				}
+				switch c04Str(c.Args[4]) {
+				case "true":
+					val = true
+				case "false":
+					val = false
+				default:
+					fail("%s: skipSent argument of createSendingMessage is not a literal", fn)
+				}
+				found++
+				return true
+			})
+			if found != 1 {
+				fail("%s: expected exactly one call of createSendingMessage, found %d", fn, found)
+			}
+			return val
+		}
+		contSkips, startSkips = arg("continueSendingMessage"), arg("startSendingMessage")
+	}
 	if !offInit {
 		fail("createSendingMessage: `off := num * szx.Size()` not found")
 	}
@@ -195,6 +232,33 @@ func genBlockwiseXfer(g *gen, repo string) {
 			}
 			refusesBodylessRestart = true
 		}
+	}
+	// F10e: `if off == 0 { take over the options and the code of r; truncate; payloadSize = 0 }` before the append test
+	block0Restarts := false
+	for _, s := range c04Ifs(prm) {
+		if c04Str(s.Cond) != "off==0" {
+			continue
+		}
+		var calls []string
+		truncates, zeroes := false, false
+		for _, st := range s.Body.List {
+			switch x := st.(type) {
+			case *ast.ExprStmt:
+				calls = append(calls, c04Str(x.X))
+			case *ast.IfStmt:
+				if x.Init != nil && strings.Contains(c04Str(x.Init.(*ast.AssignStmt).Rhs[0]), "payloadFile.Truncate(0)") && c04Str(x.Init.(*ast.AssignStmt).Lhs[0]) == "err" {
+					truncates = true
+				}
+			case *ast.AssignStmt:
+				if c04Str(x.Lhs[0]) == "payloadSize" && c04Str(x.Rhs[0]) == "0" {
+					zeroes = true
+				}
+			}
+		}
+		if strings.Join(calls, ";") != "cachedReceivedMessage.ResetOptionsTo(r.Options());cachedReceivedMessage.SetCode(r.Code())" || !truncates || !zeroes {
+			fail("processReceivedMessage: unexpected body of `if off == 0` (restart on the first block)")
+		}
+		block0Restarts = true
 	}
 	if refusesLostContinuation {
 		fd := funcDecl(f, "", "requestsFollowingBlock2")
@@ -303,10 +367,12 @@ func genBlockwiseXfer(g *gen, repo string) {
 	opt("Size1", message.Size1)
 	fmt.Fprintf(&b, "/-- Do: `payloadSize <= maxSzx.Size()` sends the request as it is (true: `<=`, false: `<`) -/\ndef doDirectIsLe : Bool := %s\n", c04Bool(doLe))
 	fmt.Fprintf(&b, "/-- startSendingMessage: `payloadSize < maxSZX.Size()` sends the message as it is (true: `<=`, false: `<`) -/\ndef startDirectIsLe : Bool := %s\n", c04Bool(startLe))
-	fmt.Fprintf(&b, "/-- createSendingMessage: `if blockType == message.Block1 { off += newBufLen }` present -/\ndef block1SkipsSent : Bool := %s\n", c04Bool(skipSent))
+	fmt.Fprintf(&b, "/-- createSendingMessage as continueSendingMessage calls it: for Block1 the buffer length is added to the offset (\"skip the already sent bytes\") -/\ndef block1SkipsSent : Bool := %s\n", c04Bool(contSkips))
+	fmt.Fprintf(&b, "/-- createSendingMessage as startSendingMessage calls it (first block of a response or of a one-way write): the same addend is applied (DESIGN section 6, O1) -/\ndef startSkipsSent : Bool := %s\n", c04Bool(startSkips))
 	fmt.Fprintf(&b, "/-- processReceivedMessage: the no-cached-entry-and-no-more shortcut refuses NUM > 0 before `next(w, r)` -/\ndef shortcutNeedsNum0 : Bool := %s\n", c04Bool(shortcutNeedsNum0))
 	fmt.Fprintf(&b, "/-- processReceivedMessage: a POST/PUT without Block1 asking for a Block2 block with NUM > 0 is refused (4.08), not handed to `next` -/\ndef refusesLostContinuation : Bool := %s\n", c04Bool(refusesLostContinuation))
 	fmt.Fprintf(&b, "/-- processReceivedMessage: the response of a POST/PUT is never re-requested from block 0 (the request would go out without its body) -/\ndef refusesBodylessRestart : Bool := %s\n", c04Bool(refusesBodylessRestart))
+	fmt.Fprintf(&b, "/-- processReceivedMessage: a block at offset 0 (re)starts the transfer: held bytes dropped, options and code taken from the block -/\ndef block0Restarts : Bool := %s\n", c04Bool(block0Restarts))
 	fmt.Fprintf(&b, "/-- getPayloadFromCachedReceivedMessage: on an ETag change the cached message takes over all options and the code of the new block (false: only the ETag) -/\ndef restartTakesNewOptions : Bool := %s\n", c04Bool(restartTakesOptions))
 	fmt.Fprintf(&b, "/-- udp/client: DefaultConfig BlockwiseTransferTimeout (ns), BlockwiseSZX, MaxMessageSize -/\ndef defaultTransferTimeoutNs : Nat := %d\ndef defaultSZX : Nat := %d\ndef defaultMaxMessageSize : Nat := %d\n",
 		int64(udpclient.DefaultConfig.BlockwiseTransferTimeout), uint64(udpclient.DefaultConfig.BlockwiseSZX), uint64(udpclient.DefaultConfig.MaxMessageSize))
